@@ -85,6 +85,23 @@ func (this *FileCompare) Less(i, j int) bool {
 	return this.data[i].Size > this.data[j].Size
 }
 
+// RelativePath returns the path of a file found under the directory dir
+// (see CreateFileList) relative to that directory, whatever the spelling of
+// dir ("./dir", "dir//", "dir/../dir", "."): directory walks return cleaned paths.
+func RelativePath(dir, path string) string {
+	rel, err := filepath.Rel(dir, path)
+
+	if err == nil && rel != ".." && !strings.HasPrefix(rel, ".."+pathSeparator) {
+		return rel
+	}
+
+	if len(path) >= len(dir) {
+		return path[len(dir):]
+	}
+
+	return path
+}
+
 func CreateFileList(target string, fileList []FileData, isRecursive, ignoreLinks, ignoreDotFiles bool) ([]FileData, error) {
 	var fi os.FileInfo
 	var err error
